@@ -119,9 +119,9 @@ PROPS = {
         jobs=world_jobs(["os", "inproc"], 2400, 48000),
         meta=M("exploration",
                "model-based stateful property testing inside sacrificial child processes with SIGPIPE at its default disposition, plus generated send/drop races judged by logical-clock stamps",
-               "Generated histories dominated by receiver drops, carrier drops and sends of all sizes with and without attachments are run against the world model in a forked child whose SIGPIPE disposition is the default: send must be Ok exactly when the receiving end still exists somewhere (held, in a set/server, or in transit inside an undelivered message), messages accepted while the receiver was in transit must be delivered in order after unpacking, and the child must end normally. Race cases drop the receiver from another thread or another process during a stream of sends; sends started after the drop returned must fail, sends that returned before it began must succeed, none may hang.",
+               "Generated histories dominated by receiver drops, carrier drops and sends of all sizes with and without attachments are run against the world model in a forked child whose SIGPIPE disposition is the default: send must be Ok exactly when the receiving end still exists somewhere (held, in a set/server, or in transit inside an undelivered message), messages accepted while the receiver was in transit must be delivered in order after unpacking, and the child must end normally. Race cases drop the receiver from another thread or another process during a stream of sends - or the receiving process reads the stream and is SIGKILLed at the generated point, possibly in the middle of reassembling a 6 MB message; sends started after the drop/kill returned must fail, sends that returned before it began must succeed, none may hang, and the sending process (SIGPIPE at its default disposition) must not be killed.",
                "World model and stamps trusted; the kernel-buffer budget of the generator guarantees that a legitimate send never blocks.",
-               "cases = generated histories and race plans (1..8 sends, small/multi-packet, with/without attachments, dropper = thread or forked process, typed or bytes channel); non-trivial = a multi-packet or attachment-carrying send after the receiver vanished, or a send to a receiver in transit; distinct = distinct (build, params, canonical JSON)",
+               "cases = generated histories and race plans (1..8 sends, small/multi-packet/larger than the kernel buffers, with/without attachments, dropper = thread, forked process, or a reading process that is killed; typed or bytes channel); non-trivial = a multi-packet or attachment-carrying send after the receiver vanished, or a send to a receiver in transit; distinct = distinct (build, params, canonical JSON)",
                [MODEL_ASSUMPTION]),
     ),
     "C14": dict(
@@ -147,7 +147,7 @@ PROPS = {
                            dict(build="inproc", params={"sndbuf": "4096", "cases": "2000" if tier == "quick" else "40000"}, shards=2 if tier == "quick" else 4)],
         meta=M("exploration",
                "schedule-controlled property testing: packet-level interleavings of real sends enumerated/sampled through a schedule gate at the interposed sendmsg/send, plus free-running threads and forked processes; history oracle over logical-clock stamps",
-               "The order of all packet transmissions of 2..8 concurrent sender threads is a generated multiset permutation enforced at the libc boundary (4 KiB packets, so no real call blocks and the gate owns the order); the configurations 2 senders x 2 messages x 2 packets (70 orders), 2x2x3 (924), 3x1x3 (1680) - and 3x2x2 (34 650) in the thorough tier - are enumerated completely on the real send path, larger ones are sampled. Free-running cases add forked sender processes, jitter and four receiver behaviours (eager, delayed, try_recv polling, receiver set). Oracle: delivered multiset = sent-Ok multiset, each once; every body whole (length + checksum); return(a) < start(b) implies a delivered before b; receiver finishes after the last sender drop.",
+               "The order of all packet transmissions of 2..8 concurrent sender threads is a generated multiset permutation enforced at the libc boundary (4 KiB packets, so no real call blocks and the gate owns the order); the configurations 2 senders x 2 messages x 2 packets (70 orders), 2x2x3 (924), 3x1x3 (1680) - and 3x2x2 (34 650) in the thorough tier - are enumerated completely on the real send path, larger ones are sampled. Free-running cases add forked sender processes, jitter and five receiver behaviours (eager, delayed, try_recv polling, try_recv_timeout polling, receiver set); one variant sends messages of up to 1.5 MB through the real kernel buffers while a thread pesters the sender threads with SIGUSR1 (SA_RESTART no-op handler), so that interrupted and partial transmissions occur. Oracle: delivered multiset = sent-Ok multiset, each once; every body whole (length + checksum); return(a) < start(b) implies a delivered before b; receiver finishes after the last sender drop.",
                "Replaces the abstract packet-level model named in the quantifier by enumeration on the real code (see DESIGN.md section 7); the largest listed bound (3x2x3 packets) is sampled, not exhausted. Kernel scheduling inside free-running cases is not controlled.",
                "cases = (per-sender message shapes, packet schedule or jitter, sender processes, receiver mode, typed/bytes); non-trivial = >=2 senders and >=1 multi-packet message whose packets interleave (in the schedule / in overlapping send intervals) with another sender's; distinct = distinct (build, params, canonical JSON)",
                exhaustive="every packet-transmission order of 2x2x2, 2x2x3 and 3x1x3 (senders x messages x packets) in both tiers, additionally 3x2x2 and further receiver modes in the thorough tier"),
@@ -156,9 +156,9 @@ PROPS = {
         jobs=lambda tier: [dict(build="os", params={"sndbuf": "4096", "cases": "3000" if tier == "quick" else "120000"}, shards=8 if tier == "quick" else 16)],
         meta=M("fault_enumeration",
                "crash-point enumeration: a forked sender process is SIGKILLed immediately before its k-th intercepted system call (socketpair/sendmsg/send/close) of the fatal send, for every k, per message shape, survivor and observer",
-               "For each message shape (1..3 packets quick, 1..6 thorough; with and without attachments), with and without a surviving sender handle in the parent, and for each observer (blocking recv, try_recv loop, receiver set, router route; also observers already waiting while the sender dies), the crash index k runs over every system-call boundary of the sending process from 0 to past the last call. The M messages sent before must arrive intact and first; the interrupted message is delivered intact or not as a message (at most one non-Disconnected error); with a survivor no closure is reported before the survivor's messages arrived; closure is reported afterwards; nothing hangs; attachments of an undelivered message are released.",
+               "For each message shape (1..3 packets quick, 1..6 thorough; with and without attachments), with and without a surviving sender handle in the parent, and for each observer (blocking recv, try_recv loop, receiver set, router route; also observers already waiting while the sender dies), the crash index k runs over every system-call boundary of the sending process from 0 to past the last call. The M messages sent before must arrive intact and first; the interrupted message is delivered intact or not as a message (at most one non-Disconnected error); with a survivor no closure is reported before the survivor's messages arrived; closure is reported afterwards; nothing hangs; attachments of an undelivered message are released. In the first-look variants the observer looks at the channel between the crash and the survivor's next send: try_recv / try_recv_timeout(3 ms) must come back, and a receiver set / the router must deliver a message of another member, while nothing complete is queued behind the abandoned message.",
                "The crash is a real SIGKILL of a real process at a libc-call boundary (not inside the kernel); 4 KiB packets via the SO_SNDBUF lie so that the send never blocks.",
-               "cases = (packets, attachments, earlier messages, survivor, observer, concurrent, crash index k) enumerated; thorough adds generated combinations; non-trivial = the process died strictly between the first packet and the last follow-up of a multi-packet message; distinct = distinct canonical JSON",
+               "cases = (packets, attachments, earlier messages, survivor, observer, concurrent, first look, crash index k) enumerated, plus generated combinations (half of them with k strictly inside the transfer); non-trivial = the process died strictly between the first packet and the last follow-up of a multi-packet message; distinct = distinct canonical JSON",
                exhaustive="every crash index k = 0..packets+8 (covers every intercepted call of the send and 'after the last call') for the listed shapes x survivor x observer"),
     ),
     "C15": dict(
@@ -177,7 +177,7 @@ PROPS = {
         + ([dict(fuzz="decode", runs=1500000, max_len=600, procs=8)] if tier == "thorough" else []),
         meta=M("exploration",
                "structure-aware fuzzing with proptest: random bytes and mutated valid encodings (bit flips, truncation, extension, special-value overwrites of length prefixes and attachment indices) x attachment lists x 13 expected types x 5 receive paths, with identity probes and release checks",
-               "Arbitrary (bytes, attachments) pairs are put on the wire through the public API (a harness type that serialises as raw bytes and registers attachments) and received as one of 13 expected types via recv, try_recv, receiver set + OpaqueIpcMessage::to, or dropped undecoded via a receiver set or a router callback. The result must be Ok or Err - never a panic/abort; every endpoint/region in an Ok value must be one of the attached ones and handed out at most once (probed); after dropping everything each attached-only sender's channel reports Disconnected, each attached receiver's channel refuses sends, and the descriptor table is back to its baseline.",
+               "Arbitrary (bytes, attachments) pairs are put on the wire through the public API (a harness type that serialises as raw bytes and registers attachments) and received as one of 13 expected types via recv, try_recv, receiver set + OpaqueIpcMessage::to, or dropped undecoded via a receiver set or a router callback. The result must be Ok or Err - never a panic/abort; every endpoint/region in an Ok value must be one of the attached ones and handed out at most once (probed); after dropping everything each attached-only sender's channel reports Disconnected, each attached receiver's channel refuses sends, and the descriptor table is back to its baseline. A fifth of the cases free descriptor number 0 right before the receive (a process without stdin), so that the first attachment is installed as descriptor 0; number 0 must be free again afterwards.",
                "In-process generated search (no coverage guidance in the registered tiers); each case runs on a fresh thread; an abort of the worker process is reported as a violation with the case in flight as replay.",
                "cases = (expected type, byte generator, 0..8 attachments, receive path); non-trivial = the decoded value handed out at least one endpoint, or the bytes are a structured mutation of a valid encoding, or the message was dropped undecoded with >=1 attachment; distinct = distinct (build, canonical JSON)"),
     ),
@@ -241,7 +241,7 @@ PROPS = {
                            dict(build="inproc", params={"sndbuf": "4096", "cases": "600" if tier == "quick" else "10000"}, shards=4 if tier == "quick" else 8)],
         meta=M("exploration",
                "generated one-shot-server scenarios (event orders x client kinds: thread, forked child, re-executed helper process) with descriptor/temp-file snapshots as leak oracle",
-               "Per case 1..24 (quick) / 1..200 (thorough) servers are alive at once; for each a client (thread, forked child or spawned helper process) connects and sends 1..20 small/multi-packet messages, some with region attachments, in one of the orders: client finishes and exits before accept; accept already waiting; prefix - accept - rest. Some servers are dropped unused, with or without a connected client. accept must return the first message and a receiver yielding the rest in order and then Disconnected; names must be distinct; after accept/drop /proc/self/fd and the private TMPDIR must equal the snapshot taken before the servers were created plus exactly one descriptor per held receiver, and equal it exactly after everything was dropped.",
+               "Per case 1..24 (quick) / 1..200 (thorough) servers are alive at once; for each a client (thread, forked child or spawned helper process) connects and sends 1..20 small/multi-packet messages, some with region attachments, in one of the orders: client finishes and exits before accept; accept already waiting; prefix - accept - rest; client running ahead with accept arriving late. In the orders where the server reads while the client sends, messages larger than the kernel buffers (also as the very first, bootstrap message) occur. Some servers are dropped unused, with or without a connected client. accept must return the first message and a receiver yielding the rest in order and then Disconnected; names must be distinct; after accept/drop /proc/self/fd and the private TMPDIR must equal the snapshot taken before the servers were created plus exactly one descriptor per held receiver, and equal it exactly after everything was dropped.",
                "The in-process build checks only the behavioural half (no files or descriptors exist there).",
                "cases = (per server: client kind, message script with attachments, event order, dropped unused, connects); non-trivial = >=2 messages queued before accept, or the client exited before accept, or >=2 servers alive; distinct = distinct (build, params, canonical JSON)"),
     ),
@@ -259,7 +259,7 @@ PROPS = {
         jobs=lambda tier: [dict(build=b, params={"sndbuf": "4096", "cases": "2500" if tier == "quick" else "40000"}, shards=8 if tier == "quick" else 16) for b in ("os", "memfd")],
         meta=M("exploration",
                "stateful property testing over the whole public API (world-model programs interleaved with failure paths, undecoded drops, router routes and start/stop cycles, repeated for amplification) with descriptor/mapping/temp-file snapshots, a close ledger with planted sentinel descriptors, and spawned children reporting inherited descriptors",
-               "Generated sequences (<=60 operations quick, <=400 thorough, repeated up to ~10^3 times within an operation budget) create channels, bytes channels, regions, sets, servers and routers, clone, send small and multi-packet messages with mixed attachments, receive (decoding or dropping undecoded), transfer endpoints, connect to missing and stale names, send values whose serialisation fails, send to closed receivers, and drop everything in generated order. At generated moments every free descriptor number is filled with a sentinel (raw-syscall dup of /dev/null) so that a stale or double close is recorded by the interposed close, and an unrelated child (exec of the harness with 'helper fdlist') reports what it inherited. Afterwards /proc/self/fd, the shared-memory lines of /proc/self/maps and the TMPDIR listing must equal the snapshot taken before the sequence; no close may have failed with EBADF or hit a sentinel; the child must have seen only 0/1/2.",
+               "Generated sequences (<=60 operations quick, <=400 thorough, repeated up to ~10^3 times within an operation budget) create channels, bytes channels, regions, sets, servers and routers, clone, send small and multi-packet messages with mixed attachments, receive (decoding or dropping undecoded), transfer endpoints, connect to missing and stale names, send values whose serialisation fails, send to closed receivers, and drop everything in generated order. At generated moments every free descriptor number is filled with a sentinel (raw-syscall dup of /dev/null) so that a stale or double close is recorded by the interposed close, and an unrelated child (exec of the harness with 'helper fdlist') reports what it inherited. Afterwards /proc/self/fd, the shared-memory lines of /proc/self/maps and the TMPDIR listing must equal the snapshot taken before the sequence; no close may have failed with EBADF or hit a sentinel; the child must have seen only 0/1/2. A quarter of the cases free descriptor number 0 before every receive (so that received endpoints own number 0) and require it to be free again at the end; private routers are stopped by shutdown() or by dropping the proxy with live routes, and their thread must be gone before the comparison.",
                "memfd_create is a raw syscall invisible to the wrappers - the snapshot oracle still sees its descriptors. The world-model results are checked too (a mismatch is reported under its own signature).",
                "cases = (operation sequence, repetition count); non-trivial = the sequence has >=20 operations and contains a failing operation, an endpoint transfer, a router or a receiver set; distinct = distinct (build, canonical JSON)"),
     ),
